@@ -3,7 +3,7 @@
 here="$(cd "$(dirname "$0")" && pwd)"
 cd "$here" || exit 2
 mkdir -p .build evidence out
-export PYTHONPATH="/repo:$here" PYTHONDONTWRITEBYTECODE=1 PYTHONHASHSEED=0
+export PYTHONPATH="/repo:$here" XV_REPO=/repo PYTHONDONTWRITEBYTECODE=1 PYTHONHASHSEED=0
 /venv/bin/python -B -m xv.tables || exit 1
 if [ -f xv/puppet.c ]; then gcc -O1 -o .build/puppet xv/puppet.c || exit 1; fi
 echo setup ok
